@@ -283,6 +283,31 @@ def run_function(task):
     return out
 
 
+def prune_cache(path, limit_bytes=300 * 1024 * 1024):
+    """the result cache is keyed by content hashes, so every edit of /repo or /verif leaves a dead generation behind:
+    keep it below `limit_bytes` by dropping the least recently used entries (disk space is limited)"""
+    try:
+        ents = []
+        total = 0
+        for n in os.listdir(path):
+            fp = os.path.join(path, n)
+            st = os.stat(fp)
+            ents.append((st.st_mtime, st.st_size, fp))
+            total += st.st_size
+        if total <= limit_bytes:
+            return
+        for _, size, fp in sorted(ents):
+            try:
+                os.remove(fp)
+            except OSError:
+                pass
+            total -= size
+            if total <= limit_bytes * 0.6:
+                break
+    except OSError:
+        pass
+
+
 def load_json(path, default):
     try:
         return json.load(open(path))
@@ -320,6 +345,8 @@ def main(argv=None):
 
     # extra (non symbolic-execution) obligation generators for this property: frame scans, twin check
     use_cache = not args.no_cache and tier == "quick" and not os.environ.get("PYVC_NO_CACHE")
+    if use_cache:
+        prune_cache(os.environ.get("PYVC_CACHE_DIR") or os.path.join(HERE, ".cache"))
     tasks = []
     keys = [k for k, c in reg.contracts.items() if prop in c.props and not c.trusted]
     if args.only:
